@@ -6,6 +6,9 @@ cd "$(dirname "$0")"
 export GOFLAGS=-mod=mod GOPROXY=off GOSUMDB=off GOTOOLCHAIN=local
 mkdir -p go/.build evidence replays
 tools/gen.sh "${VERIF_REPO:-/repo}"
-( cd lean && lake build )
+( cd lean && lake build oracle )
+# everything else is rebuilt by the checks themselves; a proof that depends on facts
+# regenerated from the tree must not make the setup fail
+( cd lean && lake build Golib ) || echo "setup: warning: some Lean modules did not build (each check reports its own obligations)"
 ( cd go && go build -o .build/vcheck-setup ./cmd/vcheck )
 echo setup ok
